@@ -65,6 +65,10 @@ func (e *Engine) genFunction(key string) (*FnCtx, error) {
 	}
 	fc := e.newFnCtx(fn, ct)
 	fc.structTypes = e.structTypeTable()
+	if ct.AsmFile != "" {
+		err := fc.runAsm(e.repo)
+		return fc, err
+	}
 	err := fc.run()
 	if err != nil {
 		return fc, err
